@@ -582,6 +582,7 @@ class _PendingSubscriptionRequest:
         self.signal_name = signal_name
         self.subscribe = subscribe
         self.receivers: Set[QMI_SignalReceiver] = set()
+        self.publisher_removed = False
         self._completed = threading.Event()
         self._success = False
         self._error_msg = ""
@@ -1035,6 +1036,12 @@ class SignalManager(QMI_MessageHandler):
                           ("subscribe" if pending_request.subscribe else "unsubscribe"),
                           full_name, success)
 
+            # A removal notice for this signal may have overtaken the reply: the publisher was removed
+            # just after the remote side accepted the request. The remote side has already dropped us.
+            if pending_request.subscribe and success and pending_request.publisher_removed:
+                success = False
+                error_msg = "Publisher of {} was removed".format(full_name)
+
             # On successful completion of a subscribe request, move the waiting
             # subscribers to the list of local subscribers for this signal.
             if pending_request.subscribe and success:
@@ -1081,6 +1088,11 @@ class SignalManager(QMI_MessageHandler):
         with self._lock:
             if full_name in self._local_subscriptions:
                 self._local_subscriptions.pop(full_name)
+
+            # Remember the removal if a subscribe request for this signal is still waiting for its reply.
+            pending_request = self._pending_subscription_request_by_signal_name.get(full_name)
+            if (pending_request is not None) and pending_request.subscribe:
+                pending_request.publisher_removed = True
 
     def handle_message(self, message: QMI_Message) -> None:
         """Handle messages sent to the signal manager object."""
